@@ -696,6 +696,53 @@ func TestVerifC06(t *testing.T) {
 	c06Namespace(t, out)
 	c06RefusedRegistration(t, out)
 	c06CancelledRequest(t, out)
+	c06DottedMount(t, out)
+}
+
+// c06DottedMount: the lease id starts with the mount path; a mount named like a token prefix (`s.rec/`, `b.rec/`) and a
+// request path with a dot in it (`lease/app.readonly`) make a lease id that id parsers may misread. A failing lease
+// registration must be rolled back all the same: the secret revoked at its backend, no lease or index record left.
+// Op line: dotmount <mount> <fail at: id|token> => <class>|newlease:<n>|newindex:<n>|live:<n>
+func c06DottedMount(t *testing.T, out *vh.Out) {
+	e := c06NewEnv(t)
+	c, root := e.c, e.root
+	for _, m := range []string{"s.rec", "b.rec"} {
+		if cl, _ := vhReq(c, logical.UpdateOperation, "sys/mounts/"+m, root, map[string]any{"type": "vhrec"}); cl != "ok" {
+			t.Fatalf("mount %s: %s", m, cl)
+		}
+		for _, at := range []string{"id", "token"} {
+			count := func(sub string) int {
+				n := 0
+				for _, k := range e.p.AllKeys() {
+					if strings.Contains(k, sub) {
+						n++
+					}
+				}
+				return n
+			}
+			c06Quiesce(e.p)
+			l0, x0 := count("sys/expire/id/"+m+"/"), count("sys/expire/token/")
+			i0, r0 := e.counts()
+			e.p.FailKeyOnce("put", "sys/expire/"+at+"/", "")
+			cl, _ := vhReq(c, logical.ReadOperation, m+"/lease/app.readonly", root, nil)
+			fired := e.p.KeyFaultFired()
+			if cl != "ok" {
+				cl = "err"
+			}
+			c06Quiesce(e.p)
+			i1, r1 := e.counts()
+			nl, nx, live := count("sys/expire/id/"+m+"/")-l0, count("sys/expire/token/")-x0, (i1-i0)-(r1-r0)
+			res := fmt.Sprintf("%s|newlease:%d|newindex:%d|live:%d", cl, nl, nx, live)
+			if !fired {
+				res += "|nofault"
+			}
+			if cl != "ok" && (nl > 0 || nx > 0 || live > 0) {
+				res += fmt.Sprintf("!VIOL:a lease registration on mount %s/ (request path with a dot) failed at the %s write and was not rolled back: %d lease record(s), %d index entr(ies), %d live secret(s) left#C06:failed-registration-not-rolled-back", m, at, nl, nx, live)
+			}
+			out.Op(res, "dotmount", m, at)
+		}
+	}
+	_ = c.Shutdown()
 }
 
 // c06CancelledRequest: the REQUEST's context is cancelled (client gone, request deadline) right after the lease record
